@@ -455,7 +455,7 @@ Print Assumptions C10_adapter_typing_nonvacuous.
 (* ---- the two repaired variants of visit_model (Model2.v; proposed_fixes/ready/C10_01 and C10_02).  Both off = the
    converter as read. *)
 Theorem C10_native2_off : forall adapt smin smax fuel M t,
-  convert_native2 false false false adapt smin smax fuel M t = convert_native adapt smin smax fuel M t.
+  convert_native2 false false MinOff adapt smin smax fuel M t = convert_native adapt smin smax fuel M t.
 Proof. exact native2_off. Qed.
 Print Assumptions C10_native2_off.
 
@@ -503,12 +503,14 @@ Print Assumptions C10_quantizelinear_refused_example.
 
 (* ---- "when a conversion is not supported the model is left as it was", for EVERY request (source s, target t):
    outside smin <= s <= t <= smax (target out of range, downgrade, source below the supported minimum) the native path with
-   the below-minimum pre-check (proposed_fixes/ready/C10_03) raises and the model is exactly the one passed in.
-   Function-free model with at least one default-domain node (as after the inlining of the public entry). *)
-Theorem C10_unsupported_request_unchanged_fixed : forall adapt smin smax own refuse fuel s t M,
+   the below-minimum pre-check raises and the model is exactly the one passed in.  Holds for both variants of the pre-check
+   (mv = MinNode: /repo a75b415, node versions; mv = MinDecl: /repo 78f42e9, the opset the container imports -- the code as
+   it stands, decided by the harness probe).  Function-free model with at least one default-domain node (as after the
+   inlining of the public entry). *)
+Theorem C10_unsupported_request_unchanged_fixed : forall adapt smin smax own refuse mv fuel s t M, mv <> MinOff ->
   consistent_at s M = true -> m_funcs M = [] -> existsb n_dflt (m_graph M) = true ->
   unsupported smin smax s t = true ->
-  exists e, convert_native2 own refuse true adapt smin smax fuel M t = MRaised e M [].
+  exists e, convert_native2 own refuse mv adapt smin smax fuel M t = MRaised e M [].
 Proof. exact native2_unsupported_unchanged. Qed.
 Print Assumptions C10_unsupported_request_unchanged_fixed.
 
@@ -516,16 +518,50 @@ Print Assumptions C10_unsupported_request_unchanged_fixed.
    its opset-11 `axes` attribute under an opset-18 import (replayed: onnx.checker rejects the result; finding) *)
 Theorem C10_unsupported_request_unchanged_refuted : forall fx own refuse, exists M',
   unsupported supported_min supported_max 11 18 = true /\ consistent_at 11 w_below_min = true /\
-  convert_native2 own refuse false (std_adapt fx) supported_min supported_max big_fuel w_below_min 18 = MDone M' [] /\
+  convert_native2 own refuse MinOff (std_adapt fx) supported_min supported_max big_fuel w_below_min 18 = MDone M' [] /\
   m_decl M' = Some 18 /\ map n_attrs (m_graph M') = [[("axes"%string, AInts [0])]].
 Proof. exact below_min_refuted. Qed.
 Print Assumptions C10_unsupported_request_unchanged_refuted.
 
-Theorem C10_unsupported_request_unchanged_example : forall fx own refuse,
-  convert_native2 own refuse true (std_adapt fx) supported_min supported_max big_fuel w_below_min 18 = MRaised ERefused w_below_min [] /\
+Theorem C10_unsupported_request_unchanged_example : forall fx own refuse mv, mv <> MinOff ->
+  convert_native2 own refuse mv (std_adapt fx) supported_min supported_max big_fuel w_below_min 18 = MRaised ERefused w_below_min [] /\
   existsb n_dflt (m_graph w_below_min) = true.
 Proof. exact below_min_fixed_example. Qed.
 Print Assumptions C10_unsupported_request_unchanged_example.
+
+(* ---- the regression of a75b415 (finding C10:native:node-version-below-min-in-supported-model:refused, fixed by 78f42e9).
+   REFUTED for the node-version variant: exporter output -- a model importing 18 whose nodes carry the since-version of
+   their schema (14, 13) -- is refused although (18, 20) is a supported request; the import variant converts it, the
+   result is consistent at 20.  A theorem about the OLD variant: it cannot be replayed on the repaired tree. *)
+Theorem C10_node_version_precheck_refuted : forall fx own refuse,
+  unsupported supported_min supported_max 18 20 = false /\
+  convert_native2 own refuse MinNode (std_adapt fx) supported_min supported_max big_fuel w_stamped 20 = MRaised ERefused w_stamped [] /\
+  (exists M', convert_native2 own refuse MinDecl (std_adapt fx) supported_min supported_max big_fuel w_stamped 20 = MDone M' [] /\
+              consistent_at 20 M' = true /\ map n_op (m_graph M') = map n_op (m_graph w_stamped)) /\
+  convert_native2 own refuse MinDecl (std_adapt fx) supported_min supported_max big_fuel w_stamped 20
+  = convert_native2 own refuse MinOff (std_adapt fx) supported_min supported_max big_fuel w_stamped 20.
+Proof. exact node_version_check_refuted. Qed.
+Print Assumptions C10_node_version_precheck_refuted.
+
+(* _fixed counterpart, for all models: when the model and every function import a supported opset the 78f42e9 pre-check
+   never fires, WHATEVER versions the nodes carry -- the converter is the one before a75b415 and every theorem about it
+   carries over *)
+Theorem C10_import_precheck_quiet_in_supported_range_fixed : forall adapt smin smax own refuse fuel s t M fvs,
+  default_version M = Some (Some s) -> smin <= s ->
+  versions_of own (Some s) (m_funcs M) = Some fvs -> forallb (fv_supported smin) fvs = true ->
+  convert_native2 own refuse MinDecl adapt smin smax fuel M t = convert_native2 own refuse MinOff adapt smin smax fuel M t.
+Proof. exact decl_supported_import_never_refused. Qed.
+Print Assumptions C10_import_precheck_quiet_in_supported_range_fixed.
+
+(* ... and when the model imports an opset below the minimum it is refused before anything is modified, again whatever
+   versions the nodes carry (no consistency hypothesis; functions allowed; at least one default-domain node anywhere) *)
+Theorem C10_import_below_min_refused_unchanged : forall adapt smin smax own refuse fuel s t M fvs,
+  (t >? smax) || (t <? smin) = false -> default_version M = Some (Some s) -> s < smin ->
+  versions_of own (Some s) (m_funcs M) = Some fvs ->
+  existsb has_dflt (m_graph M) = true ->
+  convert_native2 own refuse MinDecl adapt smin smax fuel M t = MRaised ERefused M [].
+Proof. exact decl_below_min_refused. Qed.
+Print Assumptions C10_import_below_min_refused_unchanged.
 
 (* ---- "keeps its initializers and graph signature": the native converter's state (Model.model) has no component for graph
    inputs, outputs or initializers -- it only rewrites node lists and imports (frame by construction; measured on every
@@ -550,7 +586,7 @@ Theorem C10_capi_wrapper_order_refuted :
   NoDup (keys (g_inits w_capi)) /\
   keys (g_inits (snd (call_onnx_api true 1000 w_capi))) = ["w_small"%string; "w_big"%string] /\
   keys (g_inits w_capi) = ["w_big"%string; "w_small"%string] /\
-  g_inputs (fst (call_onnx_api true 1000 w_capi)) = ["x"%string; "w_big"%string; "w_small"%string] /\
+  map fst (g_inputs (fst (call_onnx_api true 1000 w_capi))) = ["x"%string; "w_big"%string; "w_small"%string] /\
   keys (g_inits (fst (call_onnx_api true 1000 w_capi))) = ["w_small"%string].
 Proof. exact call_onnx_api_order_refuted. Qed.
 Print Assumptions C10_capi_wrapper_order_refuted.
